@@ -97,8 +97,25 @@ def gen_valid(rng, name, direction, uid, n):
 
 
 def gen_garbage(rng, name, direction, uid):
-    kind = rng.choice(['random', 'corrupt', 'truncate', 'foreign', 'delims', 'partial', 'nonhex', 'mixed', 'bighead'])
+    kind = rng.choice(['random', 'corrupt', 'truncate', 'foreign', 'delims', 'partial', 'nonhex', 'mixed', 'bighead', 'corrupt-class'])
     good = gen_valid(rng, name, direction, uid, 1)
+    if kind == 'corrupt-class':
+        # a damaged frame of EVERY message class in turn (each has its own rule in the RTU length oracle), own or foreign unit
+        kind = 'corrupt'
+        gen = msggen.gen_req if direction == 'req' else msggen.gen_resp
+        types = msggen.REQ_TYPES if direction == 'req' else msggen.RESP_TYPES
+        for _ in range(20):
+            t = rng.choice(types)
+            m = gen(rng, t)
+            if t == 'diag' and rng.random() < 0.6:
+                m = {'t': 'diag', 'sub': 0, 'message': {'k': 'int', 'n': rng.randrange(65536)}}
+            if not in_range(direction, m) or not devinfo_fits(m):
+                continue
+            f = framelib.real_build(name, direction, m, rng.choice([uid, uid, (uid + 5) % 247 + 1]), rng.randrange(65536), 0)
+            if isinstance(f, dict) or len(f) > 256 or not frame_ok(name, direction, m, f):
+                continue
+            good = [f]
+            break
     g = []
     if kind == 'random' or not good:
         g = [rng.randrange(256) for _ in range(rng.choice([1, 2, 3, 5, 17, 60, 300]))]
@@ -217,7 +234,7 @@ def run(ctx):
              [c['frame']] * sum(c['frames_per_chunk']), c['chunks']) for c in ctx.corpus() if c.get('kind') == 'resync' and 'frames_per_chunk' in c]
     if full:
         check_cases(ctx, rep, full)
-    rounds = ctx.scale(150, 3000)
+    rounds = ctx.scale(110, 2500)
     for _ in range(rounds):
         if ctx.time_left() < 15:
             break
@@ -228,7 +245,7 @@ def run(ctx):
                 for _ in range(4):
                     uid = rng.choice([1, 2, 0x11, 0x7B])      # 0x7B: the binary start delimiter as a unit id (sent raw, legal)
                     kind, g = gen_garbage(rng, name, direction, uid)
-                    frames = gen_valid(rng, name, direction, uid, rng.choice([2, 3, 8, 20, 50] if kind != 'bighead' else [20, 50, 80]))
+                    frames = gen_valid(rng, name, direction, uid, rng.choice(([2, 3, 8, 20, 50] if name != 'rtu' else [3, 20, 60, 110, 160]) if kind != 'bighead' else [20, 50, 80, 160]))   # RTU: enough traffic to pass the 512-byte mark
                     if len(frames) < 2:
                         continue
                     k = rng.choice([1, 1, 2, 3])
